@@ -249,6 +249,33 @@ func init() {
 	reg("UFBool", uf("Bool", "bool"))
 	reg("UFInt", uf("Int", "int"))
 	reg("UFString", uf("String", "string"))
+	reg("UFStringInj", func(c *icall) ([]*State, bool) {
+		name := litArg(c.args[0], "UF name")
+		var vals []Value
+		if sl := c.args[1].(SliceV); sl.Obj != 0 {
+			for _, r := range c.s.Heap[sl.Obj].(ArrayV).E[sl.Off : sl.Off+sl.Len] {
+				vals = append(vals, r.(IfaceV).V)
+			}
+		}
+		prev := append([]UFApp(nil), c.s.UF...)
+		t := c.w.applyUF(c.s, name, vals, "String", "string")
+		cur := c.s.UF[len(c.s.UF)-1]
+		// injectivity: equal results only for equal arguments
+		seen := map[string]bool{}
+		for _, p := range prev {
+			if p.Name != name || len(p.Args) != len(cur.Args) || p.Res == cur.Res || seen[p.Res] {
+				continue
+			}
+			seen[p.Res] = true
+			var eqs []string
+			for i := range p.Args {
+				eqs = append(eqs, tEq(p.Args[i], cur.Args[i]))
+			}
+			c.s.addPC(tImp(tEq(p.Res, cur.Res), tAnd(eqs...)))
+		}
+		c.set(opaqueStr(t))
+		return nil, false
+	})
 	reg("Regex", func(c *icall) ([]*State, bool) {
 		id := litArg(c.args[0], "regex id")
 		p := c.s.alloc(OpaqueObj{Kind: "regex", ID: "sym:" + id})
